@@ -7,10 +7,14 @@ package gitindex_test
 // A case is a history over 2-3 branches of one repository: steps that commit
 // changes (add / modify / delete / rename / chmod / revert / copy a file
 // version from another branch / same content on every branch / take over
-// another branch's tree / move a file between branches) interleaved with
-// full and delta indexing runs. After every indexing run, for every indexed
-// branch b, `branch=b` (exact, Whole=true) over the index directory must
-// return exactly the model's head tree of b.
+// another branch's tree / move a file between branches), steps that move a
+// branch ref onto the head commit of another branch (fast-forward or reset, so
+// that two indexed branches resolve to one commit while their previously
+// indexed versions differ) interleaved with full and delta indexing runs, some
+// of which list the same branches in another order than the run before. After
+// every indexing run, for every indexed branch b, `branch=b` (exact,
+// Whole=true) over the index directory must return exactly the model's head
+// tree of b.
 
 import (
 	"encoding/json"
@@ -51,10 +55,24 @@ type c13Change struct {
 	Back    int    `json:",omitempty"` // revert: how many commits to go back
 }
 
-// c13Step is either an indexing run (Index = "full" | "delta") or a set of
-// changes followed by one commit on every branch whose tree changed.
+// c13Move moves the ref of branch B onto the head commit of branch O (what
+// `git branch -f B O`, a fast-forward pull or `git reset --hard O` do): no new
+// commit is written, both branches resolve to the same commit afterwards.
+type c13Move struct {
+	B, O int
+}
+
+// c13Step is an indexing run (Index = "full" | "delta"), a ref move, or a set
+// of changes followed by one commit on every branch whose tree changed.
+//
+// Reorder != 0 on an indexing run permutes the branch list handed to the
+// indexer (it selects one of the n!-1 non-identity permutations of the list
+// used by the previous run, "HEAD" staying in front); the new order stays in
+// force for later runs.
 type c13Step struct {
 	Index   string      `json:",omitempty"`
+	Reorder int         `json:",omitempty"`
+	Move    *c13Move    `json:",omitempty"`
 	Changes []c13Change `json:",omitempty"`
 }
 
@@ -173,17 +191,34 @@ func genC13(rt *rapid.T) c13Case {
 		return st
 	}
 	indexStep := func() c13Step {
-		return c13Step{Index: vgPick(g, []string{"delta", "delta", "full", "delta"}, "index")}
+		st := c13Step{Index: vgPick(g, []string{"delta", "delta", "full", "delta"}, "index")}
+		if g.Bool(15, "reorder") {
+			st.Reorder = g.Int(1, 23, "perm")
+		}
+		return st
+	}
+	moveStep := func() c13Step {
+		b := g.Int(0, nb-1, "moveb")
+		return c13Step{Move: &c13Move{B: b, O: (b + g.Int(1, nb-1, "moveo")) % nb}}
 	}
 	// an optional indexing run of the initial state, then 1-4 rounds of
-	// (1-2 commit steps, 1 indexing run; rarely 2 runs in a row)
+	// (1-2 commit steps, 1 indexing run; rarely 2 runs in a row); in about a
+	// third of the rounds one branch is moved onto another branch's head
+	// commit, mostly right before the indexing run
 	if !g.Bool(15, "noinitialindex") {
 		c.Steps = append(c.Steps, c13Step{Index: vgPick(g, []string{"full", "full", "delta"}, "index0")})
 	}
 	nr := g.Int(1, 4, "nrounds")
 	for i := 0; i < nr; i++ {
+		move, early := g.Bool(35, "move"), g.Bool(25, "moveearly")
+		if move && early {
+			c.Steps = append(c.Steps, moveStep())
+		}
 		for j, n := 0, g.Int(1, 2, "ncommits"); j < n; j++ {
 			c.Steps = append(c.Steps, commitStep())
+		}
+		if move && !early {
+			c.Steps = append(c.Steps, moveStep())
 		}
 		c.Steps = append(c.Steps, indexStep())
 		if g.Bool(8, "again") {
@@ -201,6 +236,10 @@ type c13State struct {
 	hist  [][]c13Tree     // all committed trees per branch, oldest first
 	heads []plumbing.Hash // head commit per branch
 	blobs map[string]plumbing.Hash
+	// parent of every commit written (the histories are linear per commit)
+	parent map[plumbing.Hash]plumbing.Hash
+	// order in which the indexed names (HEAD, branches) are handed to the indexer
+	order []int
 }
 
 func (s *c13State) commit(b int, t c13Tree, msg string) error {
@@ -235,6 +274,9 @@ func (s *c13State) commit(b int, t c13Tree, msg string) error {
 	}
 	if err := s.g.SetBranch(s.c.Branches[b], ch); err != nil {
 		return err
+	}
+	if len(parents) > 0 {
+		s.parent[ch] = parents[0]
 	}
 	s.heads[b] = ch
 	s.cur[b] = t.clone()
@@ -338,19 +380,109 @@ func (s *c13State) apply(st c13Step, stepNo int) ([]string, error) {
 	return labels, nil
 }
 
-// indexedBranches is the branch list handed to the indexer and the model tree of each.
-func (s *c13State) indexedBranches() ([]string, []c13Tree) {
+// move points branch b at the head commit of branch o. It returns a label
+// saying what kind of move that was.
+func (s *c13State) move(m c13Move) (string, error) {
+	nb := len(s.c.Branches)
+	b := ((m.B % nb) + nb) % nb
+	o := ((m.O % nb) + nb) % nb
+	if o == b {
+		o = (b + 1) % nb
+	}
+	if s.heads[b] == s.heads[o] {
+		return "move:noop", nil
+	}
+	label := "move:reset"
+	for h, ok := s.heads[o], true; ok; h, ok = s.parent[h] {
+		if h == s.heads[b] {
+			label = "move:fast-forward"
+			break
+		}
+	}
+	if err := s.g.SetBranch(s.c.Branches[b], s.heads[o]); err != nil {
+		return "", err
+	}
+	s.heads[b] = s.heads[o]
+	s.cur[b] = s.cur[o].clone()
+	s.hist[b] = append(s.hist[b], s.cur[o].clone())
+	return label, nil
+}
+
+// c13Permute returns the k-th permutation (k taken modulo n!, factorial number
+// system) of xs; k = 0 is the identity.
+func c13Permute(xs []int, k int) []int {
+	pool := append([]int(nil), xs...)
+	n := len(pool)
+	fact := 1
+	for i := 2; i <= n; i++ {
+		fact *= i
+	}
+	k %= fact
+	out := make([]int, 0, n)
+	for i := n; i >= 1; i-- {
+		fact /= i
+		j := k / fact
+		k %= fact
+		out = append(out, pool[j])
+		pool = append(pool[:j], pool[j+1:]...)
+	}
+	return out
+}
+
+// reorder applies a non-identity permutation, selected by sel, to the order of
+// the indexed names. "HEAD", when indexed, stays in front: a branch query for
+// HEAD selects the first listed branch by zoekt's documented convention, so a
+// HEAD entry further back could not be addressed by a search.
+func (s *c13State) reorder(sel int) {
+	fixed := 0
+	if s.c.IndexHEAD {
+		fixed = 1
+	}
+	n := len(s.order) - fixed
+	fact := 1
+	for i := 2; i <= n; i++ {
+		fact *= i
+	}
+	if fact < 2 {
+		return
+	}
+	if sel < 0 {
+		sel = -sel
+	}
+	if sel == 0 {
+		sel = 1
+	}
+	tail := c13Permute(s.order[fixed:], 1+(sel-1)%(fact-1))
+	s.order = append(append([]int(nil), s.order[:fixed]...), tail...)
+}
+
+// indexedBranches is the branch list handed to the indexer, the model tree and
+// the head commit of each.
+func (s *c13State) indexedBranches() ([]string, []c13Tree, []plumbing.Hash) {
 	var names []string
 	var trees []c13Tree
+	var heads []plumbing.Hash
 	if s.c.IndexHEAD {
 		names = append(names, "HEAD")
 		trees = append(trees, s.cur[s.c.HeadIdx])
+		heads = append(heads, s.heads[s.c.HeadIdx])
 	}
 	for i, b := range s.c.Branches {
 		names = append(names, b)
 		trees = append(trees, s.cur[i])
+		heads = append(heads, s.heads[i])
 	}
-	return names, trees
+	if len(s.order) != len(names) {
+		s.order = make([]int, len(names))
+		for i := range s.order {
+			s.order[i] = i
+		}
+	}
+	on, ot, oh := make([]string, len(names)), make([]c13Tree, len(names)), make([]plumbing.Hash, len(names))
+	for i, j := range s.order {
+		on[i], ot[i], oh[i] = names[j], trees[j], heads[j]
+	}
+	return on, ot, oh
 }
 
 func c13CheckBranch(files []zoekt.FileMatch, branch string, want c13Tree, where string) error {
@@ -421,7 +553,7 @@ func runC13(rec *kit.Recorder, c c13Case) error {
 		}
 	}
 	nb := len(c.Branches)
-	s := &c13State{c: &c, g: g, cur: make([]c13Tree, nb), hist: make([][]c13Tree, nb), heads: make([]plumbing.Hash, nb), blobs: map[string]plumbing.Hash{}}
+	s := &c13State{c: &c, g: g, cur: make([]c13Tree, nb), hist: make([][]c13Tree, nb), heads: make([]plumbing.Hash, nb), blobs: map[string]plumbing.Hash{}, parent: map[plumbing.Hash]plumbing.Hash{}}
 	// every branch starts at the same root commit
 	init := c13Tree{}
 	for _, f := range c.Init {
@@ -457,10 +589,20 @@ func runC13(rec *kit.Recorder, c c13Case) error {
 	if c.Threshold > 0 {
 		labels = append(labels, "threshold:set")
 	}
-	var lastIdx []c13Tree // model at the previous indexing run (named branches)
+	var lastIdx []c13Tree                  // model at the previous indexing run (named branches)
+	var lastHeads map[string]plumbing.Hash // indexed name -> commit at the previous indexing run
+	var lastNames []string                 // branch list of the previous indexing run
 	nontrivial := false
 	runs, realDeltas := 0, 0
 	for si, st := range c.Steps {
+		if st.Move != nil {
+			l, err := s.move(*st.Move)
+			if err != nil {
+				return err
+			}
+			labels = append(labels, l)
+			continue
+		}
 		if st.Index == "" {
 			l, err := s.apply(st, si)
 			if err != nil {
@@ -469,7 +611,30 @@ func runC13(rec *kit.Recorder, c c13Case) error {
 			labels = append(labels, l...)
 			continue
 		}
-		names, trees := s.indexedBranches()
+		s.indexedBranches() // sets up the order on first use
+		if st.Reorder != 0 {
+			s.reorder(st.Reorder)
+		}
+		names, trees, heads := s.indexedBranches()
+		// Is the list a reordering of the previous run's list? Do two indexed
+		// names resolve to one commit now while their previously indexed
+		// commits differ?
+		reordered := lastNames != nil && strings.Join(lastNames, "\x00") != strings.Join(names, "\x00")
+		joined := false
+		if lastHeads != nil {
+			for i := range names {
+				for j := i + 1; j < len(names); j++ {
+					if heads[i] == heads[j] && lastHeads[names[i]] != lastHeads[names[j]] {
+						joined = true
+					}
+				}
+			}
+		}
+		lastNames = names
+		lastHeads = map[string]plumbing.Hash{}
+		for i, n := range names {
+			lastHeads[n] = heads[i]
+		}
 		bo := index.Options{
 			IndexDir:              indexDir,
 			RepositoryDescription: zoekt.Repository{Name: "repository"},
@@ -510,6 +675,15 @@ func runC13(rec *kit.Recorder, c c13Case) error {
 			}
 		}
 		labels = append(labels, kind)
+		if reordered {
+			labels = append(labels, kind+":branch-list-reordered")
+		}
+		if joined {
+			labels = append(labels, kind+":branches-joined-on-one-commit")
+			if realDelta {
+				nontrivial = true
+			}
+		}
 		shardsAfter := len(vgShardFiles(indexDir))
 		if shardsAfter > 1 {
 			labels = append(labels, "multi-shard-index")
@@ -599,10 +773,12 @@ func runC13(rec *kit.Recorder, c c13Case) error {
 
 func TestVerif_C13(t *testing.T) {
 	rec := kit.Open(t, "C13",
-		"rapid-generated histories over 2-3 branches of a deterministic git repository (go-git plumbing objects, fixed identity and dates): 3-10 steps, each a commit step (1-3 changes: add/modify/delete/rename/chmod/revert/copy-from-other-branch/same-on-all-branches/sync-tree/move-between-branches/empty commit) or a full/delta indexing run; after every run each indexed branch is searched (branch=b exact, Whole=true) and compared with the model head tree; a case = one history; non-trivial = some delta run that really ran as a delta build (no fallback in the log) follows a change to a path present on >= 2 branches; distinct by hash of the history",
+		"rapid-generated histories over 2-3 branches of a deterministic git repository (go-git plumbing objects, fixed identity and dates): 3-14 steps, each a commit step (1-3 changes: add/modify/delete/rename/chmod/revert/copy-from-other-branch/same-on-all-branches/sync-tree/move-between-branches/empty commit), a ref move (in ~35% of the rounds a branch is pointed at the head commit of another branch - fast-forward or reset, no new commit - so that two indexed branches resolve to one commit while their previously indexed versions differ) or a full/delta indexing run (~15% of the runs hand the indexer the same named branches in another order than the run before - HEAD, when indexed, stays in front; the new order stays in force); after every run each indexed branch is searched (branch=b exact, Whole=true) and compared with the model head tree; a case = one history; non-trivial = some delta run that really ran as a delta build (no fallback in the log) follows a change to a path present on >= 2 branches or finds two indexed branches joined on one commit that were indexed at different commits before; distinct by hash of the history",
 		"ignore files and submodules are left to C14 (delta builds fall back to normal builds on them)",
 		"index options are constant within a history (changing them makes a delta build fall back, which is a full build)",
+		"a delta run whose branch list is ordered differently from the previous run's is expected to behave like any other run (the unchanged indexer falls back to a full build there); the oracle is the same per-branch comparison",
 		"whether a requested delta build fell back to a normal build is read from the indexer's log line",
+		"HEAD, when indexed, is always listed first: a branch query for HEAD selects the first listed branch (documented: 'HEAD selects the default branch'), so with HEAD further back even a fresh full build shows the first branch under that name",
 		"documents shorter than 3 bytes show the documented NOT-INDEXED explanation instead of their content",
 	)
 	kit.Property(t, rec, genC13, func(c c13Case) error { return runC13(rec, c) })
